@@ -223,7 +223,7 @@ def verus_unit(run, unit, seed=0, twin=True, rlimit=None, timeout=600):
     obl = []
     for f in meta['fns']:
         obl.append({'name': 'verus:%s:%s' % (unit, f['path']), 'fn': f['path'], 'lines': f['lines'], 'props': f['props'],
-                    'kind': 'fn', 'notwin': f['notwin'], 'src_lines': f['src_lines']})
+                    'kind': 'fn', 'notwin': f['notwin'], 'src_lines': f['src_lines'], 'degraded': f.get('degraded') or []})
     covered = [tuple(o['lines']) for o in obl]
     for name, a, b in lemmas:
         if any(a >= x and b <= y for x, y in covered):
@@ -255,6 +255,11 @@ def verus_unit(run, unit, seed=0, twin=True, rlimit=None, timeout=600):
             if e['kind'] == 'rlimit':
                 if o['status'] == 'PROVED':
                     o['status'] = 'UNDECIDED'
+            elif o.get('degraded'):
+                # the function was restructured and some proof hints lost their anchors: a failed obligation is then a
+                # failed proof search, not a counterexample (paired Kani harnesses decide)
+                o['status'] = 'UNDECIDED'
+                e = dict(e, msg='proof hints lost their anchors (%s); then: %s' % (", ".join(o['degraded'][:3]), e['msg']))
             else:
                 o['status'] = 'FAILED'
             o['detail'].append({'msg': e['msg'], 'text': e['text'][:1500]})
